@@ -265,6 +265,15 @@ func (h *handler1) handleClientPublish(ctx context.Context, snPublish *snPkts1.P
 func (h *handler1) handleBrokerPublish(ctx context.Context, mqPublish *mqPkts.PublishPacket) error {
 	msgID := mqPublish.MessageID
 
+	// MQTT-SN does not support fragmentation: a message which does not fit
+	// into one datagram cannot be delivered (PUBLISH has a 4B header and 5B of
+	// fixed fields when its payload is this long).
+	if len(mqPublish.Payload) > snPkts1.MaxPacketLen-9 {
+		h.log.Error("Dropping a PUBLISH too long for MQTT-SN (%d B payload): %s",
+			len(mqPublish.Payload), mqPublish.TopicName)
+		return nil
+	}
+
 	// Get TopicID
 	var needsRegister bool
 	var topicID uint16
